@@ -161,6 +161,11 @@ func vfFaultOracles(opname, kind, failed string, k, code int, preDump, postDump 
 			bad("C08:failed-request-changed-store:"+site, fmt.Sprintf("%s: store call #%d (%s) failed, reply %d, yet the store changed:\n%s", opname, k, failed, code, vfDumpDiff(preDump, postDump)))
 		}
 	default:
+		if kind == "pub" && failed == "SubsUpdate" {
+			// the publisher's own read/received marks are updated on a best-effort basis (store.go
+			// messagesMapper.Save ignores that error on purpose); the message itself is stored
+			break
+		}
 		if postDump != base.PostDump {
 			bad("C08:acknowledged-but-not-stored:"+site, fmt.Sprintf("%s: store call #%d (%s) failed, reply %d, store differs from the fault-free outcome:\n%s", opname, k, failed, code, vfDumpDiff(base.PostDump, postDump)))
 		}
